@@ -118,6 +118,38 @@ def mime_tree(rng: random.Random, depth: int, nl: Any) -> bytes:
     return out
 
 
+def twin(rng: random.Random, b: bytes) -> bytes:
+    """Same length, different bytes, equal under position-weighted and plain
+    additive checksums: +1/-2/+1 on three consecutive bytes, a swap of two
+    equal-length lines, or a swap of two adjacent bytes."""
+    out = bytearray(b)
+    kind = rng.random()
+    if kind < 0.6:
+        cands = [i for i in range(len(out) - 2)
+                 if 0x21 <= out[i] < 0x7e and 0x23 <= out[i + 1] <= 0x7e
+                 and 0x21 <= out[i + 2] < 0x7e
+                 and out[i] not in b':' and out[i + 1] not in b':'
+                 and out[i + 2] not in b':']
+        if cands:
+            i = rng.choice(cands)
+            out[i] += 1
+            out[i + 1] -= 2
+            out[i + 2] += 1
+            return bytes(out)
+    if kind < 0.8 and len(out) > 3:
+        i = rng.randrange(len(out) - 1)
+        out[i], out[i + 1] = out[i + 1], out[i]
+        return bytes(out)
+    lines = b.split(b'\n')
+    same = [(i, j) for i in range(len(lines)) for j in range(i + 1, len(lines))
+            if len(lines[i]) == len(lines[j]) and lines[i] != lines[j]]
+    if same:
+        i, j = rng.choice(same)
+        lines[i], lines[j] = lines[j], lines[i]
+        return b'\n'.join(lines)
+    return b
+
+
 def relation(want: bytes, got: bytes | None) -> str:
     if got is None:
         return 'nil'
@@ -289,6 +321,14 @@ async def run_c03(spec: dict[str, Any], ctx: Ctx, info: dict[str, Any]) \
         for k in range(spec['nmsgs']):
             if 'msg' in spec:
                 b, klass = spec['msg'].encode('latin-1'), ('script',)
+            elif msgs and spec.get('twins'):
+                # a different message that collides with the previous one
+                # under weak checksums (sums, Fletcher/Adler, XOR)
+                b, klass = twin(rng, msgs[-1]), ('twin',)
+                if b == msgs[-1]:
+                    b, klass = gen_message(rng)
+                else:
+                    ctx.count('twin_messages')
             else:
                 b, klass = gen_message(rng)
             how = rng.choice(['plus', 'plus', 'sync', 'binary'])
@@ -341,6 +381,29 @@ async def run_c03(spec: dict[str, Any], ctx: Ctx, info: dict[str, Any]) \
             if moved:
                 await check_message(ctx, c, len(msgs) + 1, msgs[0], rng,
                                     'move-')
+        # a re-created mailbox re-uses UIDs: content must be the new one
+        if not c.dead and spec.get('recreate'):
+            await c.simple(b'CLOSE')
+            r1 = await c.simple(b'DELETE Copies')
+            r2 = await c.simple(b'CREATE Copies')
+            if r1.ok and r2.ok:
+                fresh: list[bytes] = []
+                for _ in range(len(msgs)):
+                    b2, _ = gen_message(rng)
+                    tag = c.next_tag()
+                    r = await c.command(tag, [
+                        tag + b' APPEND Copies {%d+}\r\n' % len(b2) + b2 +
+                        b'\r\n'])
+                    if r.ok:
+                        fresh.append(b2)
+                r = await c.simple(b'SELECT Copies')
+                if r.ok:
+                    ctx.count('recreated_mailboxes')
+                    for n, b2 in enumerate(fresh, 1):
+                        await check_message(ctx, c, n, b2, rng, 'recreated-')
+                        if c.dead:
+                            info['aborted'] = 'connection-died'
+                            return
         if not c.dead:
             await c.simple(b'LOGOUT')
     finally:
@@ -361,7 +424,8 @@ class C03(Check):
                    'run here',
                    'line counts are not checked (not in the statement)']
     floors = {'messages': 1500, 'comparisons': 15000, 'partials': 4000,
-              'part_octet_comparisons': 500}
+              'part_octet_comparisons': 500, 'twin_messages': 100,
+              'recreated_mailboxes': 100}
 
     def cases(self, tier: str, seed: int) -> Iterable[dict[str, Any]]:
         n = 1600 if tier == 'quick' else 40000
@@ -369,7 +433,9 @@ class C03(Check):
         for i in range(n):
             yield {'seed': seed * 1_000_003 + i,
                    'backend': rng.choice(['dict', 'dict', 'maildir']),
-                   'nmsgs': rng.randint(1, 3)}
+                   'nmsgs': rng.randint(1, 3),
+                   'twins': rng.random() < 0.3,
+                   'recreate': rng.random() < 0.3}
 
     def run_case(self, spec: dict[str, Any]) -> dict[str, Any]:
         random.seed(spec['seed'])
